@@ -137,9 +137,15 @@ func Run(sc Scenario) *Result {
 			payload = nil
 		}
 		m := message.NewMessage("m"+strconv.Itoa(u), payload)
-		m.Metadata.Set("k", "v"+strconv.Itoa(u))
-		if x%3 == 0 {
-			m.Metadata.Set("", "")
+		if x%11 == 5 {
+			// a message built without the constructor: no metadata map at all (legal; every delivery must still be a
+			// usable message with a metadata map of its own)
+			m = &message.Message{UUID: "m" + strconv.Itoa(u), Payload: payload}
+		} else {
+			m.Metadata.Set("k", "v"+strconv.Itoa(u))
+			if x%3 == 0 {
+				m.Metadata.Set("", "")
+			}
 		}
 		o := &orig{uuid: m.UUID, payload: append([]byte(nil), payload...), meta: map[string]string{}, metaPtr: reflect.ValueOf(m.Metadata).Pointer()}
 		for k, v := range m.Metadata {
@@ -215,6 +221,9 @@ func Run(sc Scenario) *Result {
 		// (Message.Copy shares the payload's backing array, hence the field is replaced, not written through)
 		for _, m := range msgs {
 			m.Payload = []byte("edited-after-publish")
+			if m.Metadata == nil {
+				m.Metadata = message.Metadata{}
+			}
 			m.Metadata.Set("k", "edited-after-publish")
 			m.Metadata.Set("late", "1")
 		}
